@@ -3,6 +3,7 @@
 # ./run.sh replay <replay.json>     re-execute one recorded case
 set -u
 cd "$(dirname "$0")"
+export VERIF_DIR="$PWD"
 export GOFLAGS=-mod=mod GOPROXY=off GOSUMDB=off GOTOOLCHAIN=local
 mkdir -p h/bin
 ( cd h && go build -o bin/vrun ./cmd/vrun ) || { echo "INCONCLUSIVE driver build failed"; exit 2; }
